@@ -50,7 +50,17 @@ func c13ModularModel() *openfgav1.AuthorizationModel {
 	return pm
 }
 
+// c13ModelID: the graph model and its twin carry the SAME non-empty id (a stored model and an edited draft that kept the id):
+// state keyed by the id of a model hands one the other's content.
+const c13ModelID = "01HVMMBCMGZNT3SED4Z17ECXCA"
+
 func c13GraphModel() *openfgav1.AuthorizationModel {
+	m := c13GraphModelNoID()
+	m.Id = c13ModelID
+	return m
+}
+
+func c13GraphModelNoID() *openfgav1.AuthorizationModel {
 	return ref.ToProto(&ref.Model{Schema: "1.1", Types: []ref.TypeDef{
 		{Name: "user"}, {Name: "group", Rels: []ref.Relation{{Name: "member", Rw: ref.T(), Restr: []ref.Restriction{{Type: "user"}, {Type: "group", Relation: "member"}}}}},
 		{Name: "doc", Rels: []ref.Relation{
@@ -64,6 +74,12 @@ func c13GraphModel() *openfgav1.AuthorizationModel {
 
 // c13GraphModelTwin has the names of c13GraphModel with other rewrites, restrictions and a condition.
 func c13GraphModelTwin() *openfgav1.AuthorizationModel {
+	m := c13GraphModelTwinNoID()
+	m.Id = c13ModelID
+	return m
+}
+
+func c13GraphModelTwinNoID() *openfgav1.AuthorizationModel {
 	return ref.ToProto(&ref.Model{Schema: "1.1", Types: []ref.TypeDef{
 		{Name: "user"}, {Name: "group", Rels: []ref.Relation{{Name: "member", Rw: ref.T(), Restr: []ref.Restriction{{Type: "user", Wildcard: true}}}}},
 		{Name: "doc", Rels: []ref.Relation{
